@@ -98,6 +98,7 @@ def judge(rows: List[List[int]], parent: Dict[int, int], depth: Dict[int, int], 
 
 
 # ------------------------------------------------------------------ running the real builders
+TIME_UNIT = {"scale": 1}           # 1: integer microseconds; 0.125 / 0.375: float columns as with HTA_DISABLE_NS_ROUNDING=1 (dyadic: exact)
 ROW_ORDER = {"mode": "id"}          # how the frame's rows are ordered relative to the event ids (set per case)
 
 
@@ -109,7 +110,8 @@ def _frame(rows: List[List[int]]):
     elif ROW_ORDER["mode"] == "shuffled":
         rows = list(rows)
         core.rng("roworder", len(rows), rows[0] if rows else 0).shuffle(rows)
-    df = pd.DataFrame({"index": [r[0] for r in rows], "ts": [r[1] for r in rows], "dur": [r[2] - r[1] for r in rows],
+    sc = TIME_UNIT["scale"]
+    df = pd.DataFrame({"index": [r[0] for r in rows], "ts": [r[1] * sc for r in rows], "dur": [(r[2] - r[1]) * sc for r in rows],
                        "pid": 1, "tid": 2, "stream": -1, "index_correlation": -1, "name": 0, "cat": 0})
     df = df.set_index("index", drop=False)
     df.index.name = None
@@ -232,7 +234,8 @@ def gen_case(rnd, tier: str, i: Any) -> Dict[str, Any]:
     if not spans:
         spans = [(0, tmax)]
     rows = gen_nest.assign_ids(rnd, spans, rnd.choice(["seq", "shuffled", "reversed", "sparse"]))
-    return {"kind": "frame", "rows": rows, "row_order": rnd.choice(["id", "id", "reversed", "shuffled"])}
+    return {"kind": "frame", "rows": rows, "row_order": rnd.choice(["id", "id", "reversed", "shuffled"]),
+            "time_unit": rnd.choice([1, 1, 1, 0.125, 0.375, 2.5])}
 
 
 def fixed_cases(tier: str):
@@ -305,14 +308,18 @@ def run_case(case: Dict[str, Any], ctx: Any) -> core.CaseResult:
         res.nontrivial = any(ties.values())
         res.trivial_reason = "no shared endpoint instant"
         res.key = core.digest(rows)
-        res.sample = {"rows[id,ts,end]": rows, "row_order": case.get("row_order", "id")}
+        res.sample = {"rows[id,ts,end]": rows, "row_order": case.get("row_order", "id"), "time_unit": case.get("time_unit", 1)}
         ROW_ORDER["mode"] = case.get("row_order", "id")
+        TIME_UNIT["scale"] = case.get("time_unit", 1)
         if ROW_ORDER["mode"] != "id":
             res.counters["frames_not_in_id_order"] += 1
+        if TIME_UNIT["scale"] != 1:
+            res.counters["float_time_frames"] += 1
         try:
             _run_rows(rows, res)
         finally:
             ROW_ORDER["mode"] = "id"
+            TIME_UNIT["scale"] = 1
     elif case["kind"] == "enum":
         n_fam = 0
         for fam in gen_nest.enumerate_families(case["n"], case["tmax"]):
